@@ -10,6 +10,10 @@ Definition res_code (r : opres) : Z := match r with ResOk => 0 | ResErr => 1 | R
 
 Definition req := (list str * list ev * rparams)%type.
 
+(* one step of a history: an operation with its observed result code, or a
+   request with the observed trace and RouteParams *)
+Inductive hobs := HO (o : op) (code : Z) | HQ (q : req).
+
 Inductive case :=
 (* Router.Handle(pat, h) on a fresh router: result and, when it succeeded,
    Route.GetRouteRegexp() of the stored route *)
@@ -22,7 +26,12 @@ Inductive case :=
    never touched, [pool] routes added/removed by mutator goroutines while
    dispatchers run, default handler switched between [d1] and [d2];
    observations of the dispatchers *)
-| Conc (stable pool : list (str * Z)) (d1 d2 : Z) (obs : list req).
+| Conc (stable pool : list (str * Z)) (d1 d2 : Z) (obs : list req)
+(* a HISTORY on one router: middlewares first, then operations (with their
+   observed results) and requests (with their observations) interleaved in the
+   order in which they were executed -- the same path is typically sent again
+   after later operations *)
+| Hist (mws : list (Z * bool)) (steps : list hobs).
 
 (* ---- model side ---- *)
 
@@ -88,6 +97,18 @@ Definition conc_agrees (stable pool : list route) (d1 d2 : Z) (q : req) : bool :
       (list_eqb ev_eqb trace [Hd d1] || list_eqb ev_eqb trace [Hd d2])
   end.
 
+(* history: every request is compared with the model's dispatch in the state
+   reached by the operations before it (Model.run_hist: a dispatch leaves the
+   state unchanged) *)
+Fixpoint hist_agrees (st : rstate) (mws : list (Z * bool)) (steps : list hobs) : bool :=
+  match steps with
+  | [] => true
+  | HO o code :: r =>
+      let '(st', res) := apply_op st o in
+      (res_code res =? code) && hist_agrees st' mws r
+  | HQ q :: r => req_agrees st mws q && hist_agrees st mws r
+  end.
+
 Definition agrees (c : case) : bool :=
   match c with
   | Reg pat code src =>
@@ -107,6 +128,7 @@ Definition agrees (c : case) : bool :=
       (length (model_routes stable) =? length stable)%nat &&
       (length (model_routes pool) =? length pool)%nat &&
       forallb (conc_agrees (model_routes stable) (model_routes pool) d1 d2) obs
+  | Hist mws steps => hist_agrees init_state mws steps
   end.
 
 (* ---- property side: evaluated on the OBSERVED results only ---- *)
@@ -165,6 +187,17 @@ Definition conc_class (stable pool : list sroute) (d1 d2 : Z) (q : req) : N :=
       else if list_eqb ev_eqb trace [Hd d1] || list_eqb ev_eqb trace [Hd d2] then 0%N else 10%N
   end.
 
+(* history: each request is judged against the set registered AT THAT MOMENT
+   according to the observed results of the operations before it; first failure *)
+Fixpoint hist_class (regs : list sroute) (d : option Z) (mws : list (Z * bool)) (steps : list hobs) : N :=
+  match steps with
+  | [] => 0%N
+  | HO o code :: r => let '(regs', d') := spec_replay regs d [(o, code)] in hist_class regs' d' mws r
+  | HQ (segs, trace, params) :: r =>
+      let c := dispatch_class regs d mws (filter_path (path_of segs)) trace params in
+      if N.eqb c 0 then hist_class regs d mws r else c
+  end.
+
 Definition pclass (c : case) : N :=
   match c with
   | Reg _ _ _ => 0%N
@@ -174,6 +207,7 @@ Definition pclass (c : case) : N :=
                           dispatch_class regs d mws (filter_path (path_of segs)) trace params) reqs)
   | Conc stable pool d1 d2 obs =>
       first_class (map (conc_class (spec_routes stable) (spec_routes pool) d1 d2) obs)
+  | Hist mws steps => hist_class [] (Some 0) mws steps
   end.
 
 Definition mismatches (cs : list case) : list N := bad_indices (fun c => negb (agrees c)) cs.
